@@ -22,7 +22,7 @@ def main(ctx):
         ctx.proof = None
         return replay(ctx, PROP)
     rng = ctx.rng
-    ctx.proof = common.check_proofs(PROP)
+    ctx.proof = common.check_proofs(PROP, extra_targets=['Model/TensorCheck.vo'])
     nprog = ctx.pick(1400, 12000)
     nleg = ctx.pick(2500, 20000)
     if not ctx.proof.ok:
